@@ -38,6 +38,9 @@ var c03Ops = []string{
 	"getvalue-q0", "getvalue-q1", "getvalue-q2", "search-q1-first-then-cancel",
 	"findprov-c0", "findprov-c1", "findprov-c2", "findprov-c1-first-then-cancel",
 	"putvalue", "provide", "provide-deadline5s", "provide-deadline30s", "optprovide",
+	// the consumer never reads the result channel: when every answer has been delivered (results are waiting to be
+	// handed over) it cancels and walks away
+	"findprov-c0-late-cancel-unread", "search-q0-late-cancel-unread",
 }
 
 func c03Configs(tier string) []vmc.Cfg {
@@ -158,6 +161,7 @@ func c03Run(x *vmc.X, cfg vmc.Cfg) {
 
 	ctx, cancel := context.WithCancel(l.ctx)
 	defer cancel()
+	readNow, released := make(chan struct{}), false
 	doneCh := make(chan string, 1)
 	run := func(f func() string) { go func() { doneCh <- f() }() }
 	switch {
@@ -196,6 +200,26 @@ func c03Run(x *vmc.X, cfg vmc.Cfg) {
 				}
 			}
 			return fmt.Sprintf("values=%d", n)
+		})
+	case c.op == "findprov-c0-late-cancel-unread":
+		run(func() string {
+			_ = l.d.FindProvidersAsync(ctx, pcid, 0)
+			select {
+			case <-readNow:
+			case <-ctx.Done():
+			}
+			cancel()
+			return "unread"
+		})
+	case c.op == "search-q0-late-cancel-unread":
+		run(func() string {
+			_, err := l.d.SearchValue(ctx, vkey, Quorum(0))
+			select {
+			case <-readNow:
+			case <-ctx.Done():
+			}
+			cancel()
+			return fmt.Sprintf("unread err=%v", err != nil)
 		})
 	case strings.HasPrefix(c.op, "findprov-c"):
 		count := int(c.op[len("findprov-c")] - '0')
@@ -243,6 +267,11 @@ func c03Run(x *vmc.X, cfg vmc.Cfg) {
 			break
 		}
 		pend := l.net.PendingEvents()
+		if len(pend) == 0 && !released {
+			released = true
+			close(readNow)
+			continue
+		}
 		if len(pend) == 0 {
 			// nothing can be delivered: only the operation's own timers can make progress
 			idle++
